@@ -158,7 +158,35 @@ class ExecutorPool:
         return {"n": self.n}
 
 
-SCHEDULES = ["vec", "vec-ro", "vec-list", "scalar", "scalar-0d", "scalar-np64", "scalar-ld", "reversed", "permuted", "threads", "fullapi", "executor", "int1", "int2"]
+def make_tpe(n, seed):
+    """a genuine concurrent.futures.ThreadPoolExecutor (isinstance of Executor, unlike ExecutorPool) whose submitted calls
+    finish out of order: any branch a library keeps for Executor instances (submit/wait/as_completed) is reached."""
+    from concurrent.futures import ThreadPoolExecutor
+
+    class DelayedTPE(ThreadPoolExecutor):
+        def __init__(self, n, seed):
+            super().__init__(n)
+            self._tvf_rng = np.random.default_rng(seed)
+            self.completion = []
+
+        def submit(self, f, *a, **k):
+            delay = float(self._tvf_rng.random()) * 3e-4
+            i = getattr(self, "_tvf_i", 0)
+            self._tvf_i = i + 1
+
+            def g():
+                time.sleep(delay)
+                r = f(*a, **k)
+                self.completion.append(i)
+                return r
+            return super().submit(g)
+
+        def close(self):
+            self.shutdown(wait=False)
+    return DelayedTPE(n, seed)
+
+
+SCHEDULES = ["vec", "vec-ro", "vec-list", "scalar", "scalar-0d", "scalar-np64", "scalar-ld", "reversed", "permuted", "threads", "fullapi", "executor", "tpe", "int1", "int2"]
 
 
 def one(cfg, schedule, seed):
@@ -181,8 +209,10 @@ def one(cfg, schedule, seed):
         c["mode"] = "blobs" if blobs else "scalar"
         if schedule.startswith("scalar-"):
             c["ret_type"] = schedule.split("-")[1]      # the pointwise value as 0-d array / np.float64 / np.longdouble
-        pool = {"scalar": None, "scalar-0d": None, "scalar-np64": None, "scalar-ld": None, "reversed": ReversedPool(), "permuted": PermutedPool(seed + 5), "threads": ThreadedPool(4, seed + 7), "fullapi": FullAPIPool(3, seed + 9), "executor": ExecutorPool(4, seed + 11),
+        pool = {"scalar": None, "scalar-0d": None, "scalar-np64": None, "scalar-ld": None, "reversed": ReversedPool(), "permuted": PermutedPool(seed + 5), "threads": ThreadedPool(4, seed + 7), "fullapi": FullAPIPool(3, seed + 9), "executor": ExecutorPool(4, seed + 11), "tpe": None,
                 "int1": 1, "int2": 2}[schedule]
+    if schedule == "tpe":
+        pool = make_tpe(4, seed + 13)
     c["pool"] = pool
     idblob.SHARED = mp.Value("q", 0)
     np.random.seed(seed)
@@ -195,14 +225,14 @@ def one(cfg, schedule, seed):
     except Exception as e:
         return dict(error=f"{type(e).__name__}: {e}", trace=fmt_exc()[-500:])
     finally:
-        if isinstance(pool, (ThreadedPool, ExecutorPool)):
+        if isinstance(pool, (ThreadedPool, ExecutorPool)) or schedule == "tpe":
             pool.close()
     H = runs.history(s)
     core = {k: H[k] for k in ("u", "x", "logl", "beta", "logz", "ess", "iter", "steps")}
     x, w, l = s.posterior(trim_importance_weights=False)
     seen = int(idblob.SHARED.value)
     reorder = 0
-    if isinstance(pool, ThreadedPool):
+    if isinstance(pool, ThreadedPool) or schedule == "tpe":
         comp = pool.completion
         reorder = int(sum(1 for a, b in zip(comp, comp[1:]) if b < a))
     return dict(dtypes=(sorted(like.keep_dtypes) if not isinstance(pool, int) or pool == 1 else None),
@@ -242,7 +272,7 @@ def run():
         tasks.append(("tvf.checks.c13:group", dict(cfg=dict(bigcfg, N=[1100, 2049, 1025][r]), seed=ck.subseed("big", r) % 10 ** 6, schedules=["vec", "vec-ro", "scalar"]), None))
     for ci, cfg in enumerate(cfgs):
         for r in range(nseeds):
-            sch = SCHEDULES if (r == 0 or not ck.quick or cfg.get("like_args")) else SCHEDULES[:12]
+            sch = SCHEDULES if (r == 0 or not ck.quick or cfg.get("like_args")) else SCHEDULES[:13]
             tasks.append(("tvf.checks.c13:group", dict(cfg=cfg, seed=ck.subseed("s", ci, r) % 10 ** 6, schedules=sch), None))
     for i, st, val in farm.run(tasks, timeout=1200, jobs=8, progress="C13"):
         kw = tasks[i][1]
@@ -278,7 +308,7 @@ def run():
                 ck.violation("schedule-changes-result", f"same seed, pointwise identical likelihood: schedule {sc} gives logZ {r['logz']!r} / {r['n_iter']} iterations, "
                              f"schedule {ref[0]} gives {ref[1]['logz']!r} / {ref[1]['n_iter']}", dict(cfg=kw["cfg"], seed=kw["seed"], schedule=sc))
     need = ["runs under schedule vec", "runs under schedule vec-ro", "runs under schedule scalar", "runs under schedule reversed", "runs under schedule permuted",
-            "runs under schedule threads", "runs under schedule fullapi", "runs under schedule executor", "out-of-order completions observed in the thread pool"]
+            "runs under schedule threads", "runs under schedule fullapi", "runs under schedule executor", "runs under schedule tpe", "out-of-order completions observed in the thread pool"]
     ck.require_events(*need)
     return ck.finish(
         rule="configurations x seeds x evaluation schedules {vectorised (row-by-row identical function), scalar, reversed-order pool object, "
